@@ -148,7 +148,12 @@ LOG = Log()
 # virtual clock
 # --------------------------------------------------------------------------
 class Waiter(object):
-    __slots__ = ("event", "deadline", "woken", "timed_out", "thread", "ident")
+    __slots__ = ("event", "deadline", "woken", "timed_out", "thread", "ident", "abort")
+
+
+class CaseAbort(BaseException):
+    """Raised inside a harness actor that is still parked in a library wait
+    when its case is torn down."""
 
 
 class VClock(object):
@@ -212,6 +217,7 @@ class VEvent(object):
             w.event = self
             w.woken = False
             w.timed_out = False
+            w.abort = False
             w.thread = threading.current_thread()
             w.ident = get_ident()
             if timeout is None:
@@ -225,6 +231,8 @@ class VEvent(object):
                 CV.wait()
             CLOCK.waiters.remove(w)
             CV.notify_all()
+            if w.abort:
+                raise CaseAbort()
             LOG.add("wake", timed_out=w.timed_out)
             return self._flag
 
@@ -662,6 +670,20 @@ def release_all_waiters():
             w.event._flag = True
             w.woken = True
         CV.notify_all()
+
+
+def abort_parked_actors():
+    """Case cleanup: a harness actor still parked inside a library wait (e.g. a
+    blocking submit that can never proceed) is unwound with CaseAbort."""
+    n = 0
+    with CV:
+        for w in list(CLOCK.waiters):
+            if not isinstance(w.thread, TrackedThread) and not w.woken:
+                w.abort = True
+                w.woken = True
+                n += 1
+        CV.notify_all()
+    return n
 
 
 # --------------------------------------------------------------------------
